@@ -692,7 +692,15 @@ def marshal(compoundSignature, variableList,
         variableList = [getattr(variableList, attr_name)
                         for attr_name in order]
 
-    for ct, var in zip(genCompleteTypes(compoundSignature), variableList):
+    completeTypes = list(genCompleteTypes(compoundSignature))
+
+    if len(completeTypes) != len(variableList):
+        raise MarshallingError(
+            'Signature "%s" requires %d values, %d given' %
+            (compoundSignature, len(completeTypes), len(variableList))
+        )
+
+    for ct, var in zip(completeTypes, variableList):
         tcode = ct[0]
         padding = pad[tcode](startByte)
 
